@@ -284,7 +284,7 @@ def r_unordered(ctx, model):
     for mname, mod in live_modules(model):
         for q, loop, desc in unordered_loops(mod):
             n += 1
-            ok, why = commutative_body(loop)
+            ok, why = commutative_body(loop, mod.funcs.get(q))
             ctx.check(ok, f"{mname}:{q} iterates over {desc}: commutative body", Where(mod.rel, q, loop.lineno), expected="keyed stores by the loop variable only",
                       found=why or src(loop)[:100], explanation=f"{q} iterates over an unordered collection ({desc}) and its body is order-dependent: "
                                                                 f"output depends on the interpreter's hash seed / directory order ({why})", key=f"{q}:{desc}")
